@@ -788,6 +788,13 @@ func ToEntry(n Node) (e *Entry) {
 			// There is nothing else for us to do.
 		case "include":
 			for _, a := range fv.Interface().([]*Include) {
+				if a.Module == nil {
+					// Includes are resolved for modules and the submodules
+					// they include; this one never was (e.g. n is a
+					// submodule that no loaded module includes).
+					e.addError(fmt.Errorf("%s: include of %s was not resolved", Source(a), a.Name))
+					continue
+				}
 				// Handle circular dependencies between submodules. This can occur in
 				// two ways:
 				//  - Where submodule A imports submodule B, and vice versa then the
